@@ -326,3 +326,61 @@ theorem search_spec (kind : TO.SearchKind) (uni : Option VId) (start : VId) (att
 
 end TS
 end EG
+
+namespace EG
+namespace R
+
+theorem renderLinesS_spec (w0 : World) (F : Nat → LId → Option VId → Bool) (rf : RFun)
+    (sort : Option (Option VId → Nat)) : ∀ (vs : List VId) (w : World),
+    SameGraph w0 w → CacheOK F w →
+    (renderLinesS F rf sort w vs).2 = renderLines w0 F rf sort vs ∧
+    SameGraph w0 (renderLinesS F rf sort w vs).1 ∧ CacheOK F (renderLinesS F rf sort w vs).1 := by
+  intro vs
+  induction vs with
+  | nil => intro w hg hc; exact ⟨rfl, hg, hc⟩
+  | cons v vs ih =>
+    intro w hg hc
+    have hans := C05_transparent F w v 0 2 none hc
+    have hq := C13_neighbors_frame F w v 0 2 none none hc
+    have hg' : SameGraph w0 (M.neighbors w F v 0 2 none none).1 := TS.sameGraph_trans hg hq.1
+    have hpure : M.neighborsPure w F v 0 2 none = M.neighborsPure w0 F v 0 2 none :=
+      TO.neighborsPure_congr w F w0 hg.2.2.2.2.1 hg.2.2.2.2.2.1 hg.2.2.2.2.2.2.1 v 0 2 none
+    simp only [renderLinesS, renderLines]
+    rw [hans, hpure]
+    cases hp : M.neighborsPure w0 F v 0 2 none with
+    | error e => exact ⟨rfl, hg', hq.2.1⟩
+    | ok nbs =>
+      simp only []
+      obtain ⟨e1, e2, e3⟩ := ih _ hg' hq.2.1
+      rw [e1]
+      cases hr : renderLines w0 F rf sort vs with
+      | error e => exact ⟨rfl, e2, e3⟩
+      | ok rest => exact ⟨rfl, e2, e3⟩
+
+/-- `basic_render` answers what the memo-free description `basicRender` says (the object of the
+    C16 theorems), leaves the graph as it was and every memo correct -/
+theorem basicRenderS_spec (w : World) (F : Nat → LId → Option VId → Bool) (u : VId) (rf : RFun)
+    (sort : Option (Option VId → Nat)) (hc : CacheOK F w) :
+    (basicRenderS w F u rf sort).2 = basicRender w F u rf sort ∧
+    SameGraph w (basicRenderS w F u rf sort).1 ∧ CacheOK F (basicRenderS w F u rf sort).1 := by
+  by_cases h : (w.members u).isEmpty = true
+  · simp only [basicRenderS, basicRender, h, if_true]; exact ⟨trivial, TS.sameGraph_refl w, hc⟩
+  · cases sort with
+    | none =>
+      obtain ⟨e1, e2, e3⟩ := renderLinesS_spec w F rf none (w.members u) w (TS.sameGraph_refl w) hc
+      simp only [basicRenderS, basicRender, h, if_false, Bool.false_eq_true]
+      rw [e1]
+      cases hr : renderLines w F rf none (w.members u) with
+      | error e => exact ⟨rfl, e2, e3⟩
+      | ok ls => exact ⟨rfl, e2, e3⟩
+    | some key =>
+      obtain ⟨e1, e2, e3⟩ := renderLinesS_spec w F rf (some key)
+        ((sortBy key ((w.members u).map some)).filterMap id) w (TS.sameGraph_refl w) hc
+      simp only [basicRenderS, basicRender, h, if_false, Bool.false_eq_true]
+      rw [e1]
+      cases hr : renderLines w F rf (some key) ((sortBy key ((w.members u).map some)).filterMap id) with
+      | error e => exact ⟨rfl, e2, e3⟩
+      | ok ls => exact ⟨rfl, e2, e3⟩
+
+end R
+end EG
